@@ -3,6 +3,7 @@
 use crate::CheckDef;
 use crate::report::Tier;
 
+pub mod c01;
 pub mod c11;
 pub mod c12;
 pub mod c13;
@@ -18,6 +19,8 @@ fn one(_: Tier) -> usize { 1 }
 
 pub fn all() -> Vec<CheckDef> {
     vec![
+        CheckDef { id: "C01", shards: one, run: c01::run_c01, replay: Some(c01::replay) },
+        CheckDef { id: "C02", shards: one, run: c01::run_c02, replay: Some(c01::replay) },
         CheckDef { id: "C11", shards: one, run: c11::run, replay: Some(c11::replay) },
         CheckDef { id: "C12", shards: one, run: c12::run, replay: Some(c12::replay) },
         CheckDef { id: "C13", shards: one, run: c13::run, replay: Some(c13::replay) },
@@ -34,6 +37,7 @@ pub fn all() -> Vec<CheckDef> {
 pub fn aux(args: &[String]) -> i32 {
     match args.first().map(|s| s.as_str()) {
         Some("c26-expand") => c26::aux_expand(&args[1..]),
+        Some("fake-rsync") => crate::etree::fake_rsync(&args[1..]),
         _ => { eprintln!("unknown aux command"); 2 }
     }
 }
